@@ -25,6 +25,7 @@ HARNESSES = [
     ("c15", "rcfork", ()),
     ("c16", "rcfork", ()),
     ("c19", "rcfork", ()),
+    ("c18", "rcfork", ()),
     ("c04", "rcfork", ()),
     ("fz_bitmap_hwloc", "fuzz", ("-DFMT=0",), "fz_bitmap"),
     ("fz_bitmap_list", "fuzz", ("-DFMT=1",), "fz_bitmap"),
@@ -103,7 +104,7 @@ def replay_one(ctx, path):
 
 
 # engine cfg.name -> source file name
-ALIASES = {"c01_load": "c01", "c02_history": "c02", "c03_bitmap": "c03", "c05_xml": "c05", "c06_xmlmut": "c06", "c07_synthetic": "c07", "c08_restrict": "c08", "c09_helpers": "c09", "c10_binding": "c10", "c11_types": "c11", "c12_dup": "c12", "c13_distances": "c13", "c14_memattrs": "c14", "c15_cpukinds": "c15", "c16_diff": "c16", "c19_shmem": "c19", "c04_strings": "c04"}
+ALIASES = {"c18_snapshots": "c18", "c01_load": "c01", "c02_history": "c02", "c03_bitmap": "c03", "c05_xml": "c05", "c06_xmlmut": "c06", "c07_synthetic": "c07", "c08_restrict": "c08", "c09_helpers": "c09", "c10_binding": "c10", "c11_types": "c11", "c12_dup": "c12", "c13_distances": "c13", "c14_memattrs": "c14", "c15_cpukinds": "c15", "c16_diff": "c16", "c19_shmem": "c19", "c04_strings": "c04"}
 
 
 def C01(ctx):
@@ -214,6 +215,37 @@ def C06(ctx):
     ])
 
 
+def c18_snapshots():
+    """(id, compressed size) of every bundled snapshot, by kind"""
+    import glob
+    out = {}
+    for kind in ("linux", "x86", "x86+linux"):
+        fs = sorted(glob.glob(os.path.join(V.REPO, "tests", "hwloc", kind, "*.tar.bz2")))
+        out[kind] = [("%s/%s" % (kind, os.path.basename(f)[:-8]), os.path.getsize(f)) for f in fs]
+    return out
+
+
+def C18(ctx):
+    snaps = c18_snapshots()
+    nw = V.workers_default()
+    owned = [[] for _ in range(nw)]
+    if ctx.quick():
+        # the 32 smallest Linux snapshots rotate over the workers with the seed (2 each), plus one CPUID dump each and the two x86+linux snapshots
+        small = [i for i, _ in sorted(snaps["linux"], key=lambda x: x[1])[:32]]
+        for w in range(nw):
+            for k in range(2):
+                owned[w].append(small[(ctx.seed * 5 + w * 2 + k) % len(small)])
+            owned[w].append(snaps["x86"][(ctx.seed * 3 + w) % len(snaps["x86"])][0])
+        for k, (i, _) in enumerate(snaps["x86+linux"]):
+            owned[k % nw].append(i)
+    else:
+        allsn = sorted(snaps["linux"] + snaps["x86+linux"], key=lambda x: -x[1]) + snaps["x86"]
+        for k, (i, _) in enumerate(allsn):
+            owned[k % nw].append(i)
+    ctx.extra["snapshots"] = {"linux": len(snaps["linux"]), "x86": len(snaps["x86"]), "x86+linux": len(snaps["x86+linux"]), "used_this_run": sorted(set(sum(owned, [])))}
+    std_check(ctx, [dict(harness="c18", aliases=["c18_snapshots"], cases=(450, 9000), max_ops=40, worker_env=lambda w: {"VERIF_C18_OWNED": ",".join(owned[w])})])
+
+
 def C07(ctx):
     std_check(ctx, [dict(harness="c07", aliases=["c07_synthetic"], cases=(350, 14000), max_ops=1)])
     seeds = [b"pack:2 [numa] l3:2 core:2 pu:2", b"numa:3 pack:2 core:2 pu:1", b"2 3 4 5 6", b"pack:2 core:2 pu:2(indexes=core:pu)", b"Package:1 Group:4 [NUMANode(memory=1GB indexes=1,0,3,2)] [numa] core:4 pu:2(indexes=2*4:4*2)",
@@ -242,4 +274,4 @@ def C10(ctx):
     ctx.extra["extra_assumptions"] = ["the live round trips (1 case in 8) depend on this sandbox: its kernel, cgroup configuration, allowed CPUs; the recording-mode part is machine independent"]
 
 
-PROPS = {"C01": C01, "C10": C10, "C19": C19, "C09": C09, "C11": C11, "C07": C07, "C06": C06, "C05": C05, "C16": C16, "C14": C14, "C13": C13, "C15": C15, "C08": C08, "C12": C12, "C02": C02, "C03": C03, "C04": C04}
+PROPS = {"C01": C01, "C18": C18, "C10": C10, "C19": C19, "C09": C09, "C11": C11, "C07": C07, "C06": C06, "C05": C05, "C16": C16, "C14": C14, "C13": C13, "C15": C15, "C08": C08, "C12": C12, "C02": C02, "C03": C03, "C04": C04}
